@@ -164,8 +164,8 @@ fn run_case(ctx: &mut Ctx, abs: &Abs<i64>) {
                 let e = enc::graph_rev::<$T, u32, _>(&af);
                 c11_bellman!(ctx, abs, &o.path, &e);
             }
-            for v in 0..3 {
-                if let Some(e) = enc::graphmap::<$T, _>(&au, v) {
+            for v in 0..4 {
+                if let Some(e) = if v < 3 { enc::graphmap::<$T, _>(&au, v) } else { enc::graphmap_removed::<$T, _>(&au) } {
                     common_algs!(ctx, abs, &o, &e);
                     directed_algs!(ctx, abs, &o, &e);
                     adjacency_algs!(ctx, abs, &o, &e);
@@ -188,7 +188,8 @@ fn run_case(ctx: &mut Ctx, abs: &Abs<i64>) {
                 common_algs!(ctx, abs, &o, &e);
                 adjacency_algs!(ctx, abs, &o, &e);
             }
-            if let Some(e) = enc::csr::<$T, _>(&au) {
+            for v in 0..2 {
+                let Some(e) = (if v == 0 { enc::csr::<$T, _>(&au) } else { enc::csr_cleared::<$T, _>(&au) }) else { continue };
                 common_algs!(ctx, abs, &o, &e);
                 adjacency_algs!(ctx, abs, &o, &e);
                 pagerank_same!(ctx, abs, &e);
@@ -274,9 +275,50 @@ fn stable_state_case(ctx: &mut Ctx, st: &ms::St<u32>) {
 }
 
 const WS: [i64; 3] = [1, 2, 3];
+/// larger undirected simple graphs: only the algorithms that go through the adjacency matrix, the matching and the
+/// colouring, on every encoding whose index space differs from the compact one
+fn run_adjacency_case(ctx: &mut Ctx, n: usize, edges: Vec<E>) {
+    let abs: Abs<i64> = Abs::new(n, false, edges.iter().map(|&(a, b)| (a, b, 1)).collect());
+    let plain = abs.plain();
+    let cliques = maximal_cliques_def(n, &plain);
+    ctx.nontrivial = !edges.is_empty();
+    let au: Abs<u32> = abs.map_w(|w| *w as u32);
+    type T = Undirected;
+    macro_rules! go {
+        ($e:expr) => {{
+            let e = $e;
+            c20_cliques!(ctx, &abs, &cliques, &e);
+        }};
+    }
+    go!(enc::graph::<T, u32, _>(&au));
+    go!(enc::graph_decoy::<T, u8, _>(&au));
+    go!(enc::stable::<T, u32, _>(&au));
+    go!(enc::stable_holes::<T, u8, _>(&au));
+    go!(enc::stable_holes::<T, usize, _>(&au));
+    go!(enc::matrix::<T, _>(&au).unwrap());
+    go!(enc::matrix_hole::<T, _>(&au).unwrap());
+    go!(enc::matrix_holes2::<T, _>(&au).unwrap());
+    go!(enc::graphmap::<T, _>(&au, 1).unwrap());
+    go!(enc::graphmap_removed::<T, _>(&au).unwrap());
+    go!(enc::csr::<T, _>(&au).unwrap());
+    go!(enc::csr_cleared::<T, _>(&au).unwrap());
+}
+
 fn families(a: &Args) -> Vec<Family> {
     let t = a.thorough();
     let mut v = vec![];
+    {
+        let f = SimpleFam::new(if t { 4..=6 } else { 4..=5 }, false, false);
+        let f2 = f.clone();
+        v.push(Family {
+            name: "adjacency-undirected",
+            thorough_only: false,
+            count: f.count(),
+            bounds: format!("{}: maximal_cliques (the algorithm that reads GetAdjacencyMatrix) on Graph (2 histories), StableGraph (compact / vacancies u8, usize), MatrixGraph (compact / one / three removed ids), GraphMap (relabelled / after node removals), Csr (fresh / after clear_edges)", f.bounds()),
+            run: Box::new(move |idx, ctx| { let (n, e) = f.get(idx); run_adjacency_case(ctx, n, e) }),
+            describe: Box::new(move |idx| { let (n, e) = f2.get(idx); json!({"adjacency": {"n": n, "edges": e}}) }),
+        });
+    }
     for directed in [true, false] {
         let f = WListFam { n: 3, m: if t { 3 } else { 2 }, directed, loops: true, k: 2 };
         let f2 = f.clone();
